@@ -69,7 +69,7 @@ EXPLANATION = (
     "numerals, the unit scales stay symbols, and the obligations of the call under test are the unchanged ones above."
 )
 BOUNDS = {
-    "quick": "18 commensurability-requiring binary keys of _ufunc_registry x forms {call, operator, out=quantity, out=ndarray, outer, at, "
+    "quick": "18 commensurability-requiring binary keys of _ufunc_registry x forms {call, call with where= / casting= / subok= spelled out, operator, out=quantity, out=ndarray, outer, at, "
              "reduce(initial=bare), in-place} x operand kinds {same unit, same dimension other unit, different dimension, dimensionless, "
              "scaled-dimensionless (percent-like, ANY positive scale), bare scalar, bare array, python list, list of quantities "
              "same/other/mixed, and the same-spelling kinds: same symbol and scale but another dimension in a second registry, same symbol "
@@ -665,7 +665,9 @@ def sym_ufunc(ctx, name, x0, x1, out=None):
         return disp.__array_ufunc__(STANDIN[name], "__call__", x0, x1, **kw)
 
 
-FORMS = ["call", "op", "out_q", "out_b", "outer", "at", "reduce_initial", "iop"]
+# call_kw: the plain call with the optional keyword parameters of a ufunc call spelled out (where=True, casting=, subok=): the
+# argument-form axis of the ufunc family (out= given positionally or as a 1-tuple is normalised by NumPy before unyt is entered)
+FORMS = ["call", "call_kw", "op", "out_q", "out_b", "outer", "at", "reduce_initial", "iop"]
 
 
 def run_forms(ctx, W, name, k0, k1, s0, s1, forms=FORMS):
@@ -688,6 +690,8 @@ def run_forms(ctx, W, name, k0, k1, s0, s1, forms=FORMS):
         tag = f"{name}.{form}"
         if form == "call":
             judge(ctx, W, tag, name, xcall(uf, x0, x1), ops, klass, known)
+        elif form == "call_kw":
+            judge(ctx, W, tag, name, xcall(uf, x0, x1, where=True, casting="same_kind", subok=True), ops, klass, known)
         elif form == "outer":
             judge(ctx, W, tag, name, xcall(uf.outer, x0, x1), ops, klass, known, outer=True)
         elif form in ("out_q", "out_b"):
